@@ -35,5 +35,26 @@ CHECKS = {
         "text": "Hostile inputs (directive templates x extreme integer spellings, hostile names, truncated/recursive/huge specials, import graphs with cycles, repository sources, seeded mutants, random characters, generators for oscillating branches / zp-abs flips / mutually dependent segments; real-file CLI slice with invalid UTF-8, directories and symlinks in place of files, broken mos.toml) are run through parse, Display, build-mode and analysis-mode codegen, format, listing, bank merge and symbol export. Any panic, abort (stack overflow, allocation failure), located diagnostic outside the project, or a pass loop still running at 1500 passes with a periodic state sequence is a violation.",
         "note": "Watchdog timeouts (e.g. `.loop 2^63 { nop }`, which iterates in pass 0 without a segment) are inconclusive, never violations, and are listed in the evidence as hang suspects. Release semantics. Unreadable files emulated (sandbox runs as root).",
     },
+    "C08": {
+        "engine": "probe",
+        "category": "exploration",
+        "technique": "runtime monitoring: metamorphic oracle - one abstract program rendered with hostile trivia/case/CRLF variants must assemble to identical bytes, symbols and diagnostics",
+        "text": "Each ProgGen program (20% with an injected semantic error) is rendered plainly and four times by a layout engine that inserts blanks, tabs, nested and multi-line block comments, comments containing code-like text, blank lines, CRLF and random letter case/radix/leading zeros at every boundary where the grammar's ws/mws wrappers accept them; the real library must report identical segment bytes, final symbol values and diagnostic messages. Coverage of (boundary kind x trivia kind) pairs is reported.",
+        "note": "The whitelist of trivia positions is the renderer's reading of the grammar; a wrong whitelist shows up as a false alarm (variant rejected), not as a miss. Anonymous scope numbers are normalised (hash-order dependent, see C10).",
+    },
+    "C12": {
+        "engine": "probe",
+        "category": "exploration",
+        "technique": "runtime monitoring: the real formatter on hostile-layout programs x random configurations, judged by an independent lexer (tokens, uniquely tagged comments) and by re-assembling; CLI slice for `mos format`",
+        "text": "Programs in hostile layout (every generated comment carries a unique id and the boundary it was inserted at) are formatted by the library with random options; the result must parse, keep the token sequence (independent lexer) and every comment id in order, and assemble to the same bytes/symbols/diagnostics. Every 40th program is also formatted by the real `mos format` in a directory: files must equal the library text, and with a parse error injected into one file no file may change.",
+        "note": "Statement kinds covered are those ProgGen emits (no .test/.assert/.trace/.file/bank definitions yet). Comment text compared modulo inner whitespace.",
+    },
+    "C13": {
+        "engine": "probe",
+        "category": "exploration",
+        "technique": "runtime monitoring: format(format(p)) == format(p) on hostile-layout programs x random configurations, with a clean sub-domain that excludes the triggers of the known findings",
+        "text": "Same workload as C12. Half of the programs stay inside a clean sub-domain (no multi-line block comments, no comments around `else`, no block comments in front of statements, same-line braces when an `else` exists) where the pinned tree is idempotent, so any drift there is a new violation with a specific signature; the other half exercises the full domain, where three natures of drift are genuine known findings.",
+        "note": "Known findings are keyed by nature of drift in the full domain only (indentation / blank-line / line-break); content drift or any drift in the clean sub-domain is reported as VIOLATION.",
+    },
 }
 NOT_APPLICABLE = {}
